@@ -107,6 +107,11 @@ class Cell(Numbered_MCNP_Object):
         self._number = self._tree["cell_num"]
         mat_tree = self._tree["material"]
         self._old_mat_number = mat_tree["mat_number"]
+        if input and self.old_mat_number is not None and self.old_mat_number < 0:
+            raise MalformedInputError(
+                input,
+                f"The material number of a cell is 0 or positive; {self.old_mat_number} was given",
+            )
         self._density_node = mat_tree["density"]
         self._density_node.is_negatable_float = True
         if self.old_mat_number != 0:
